@@ -507,7 +507,12 @@ def extract_linear_coefficient(expr: Expression, var: Variable) -> float:
 
 def _extract_coefficient_impl(expr: Expression, var: Variable) -> float:
     """Recursive coefficient extraction."""
-    from optyx.core.vectors import DotProduct, LinearCombination, VectorSum
+    from optyx.core.vectors import (
+        DotProduct,
+        LinearCombination,
+        VectorPowerSum,
+        VectorSum,
+    )
 
     # Constant - contributes 0 to variable coefficient
     if isinstance(expr, Constant):
@@ -540,6 +545,14 @@ def _extract_coefficient_impl(expr: Expression, var: Variable) -> float:
         for v in expr.vector._variables:
             if v.name == var.name:
                 return 1.0
+        return 0.0
+
+    # VectorPowerSum is linear only as (x ** 1).sum() = sum(x); (x ** 0).sum() is a constant
+    if isinstance(expr, VectorPowerSum):
+        if expr.power == 1.0:
+            for v in expr.vector._variables:
+                if v.name == var.name:
+                    return 1.0
         return 0.0
 
     # DotProduct: a linear dot product is a sum of (constant * linear) products
@@ -642,13 +655,22 @@ def extract_constant_term(expr: Expression) -> float:
 
 def _extract_constant_impl(expr: Expression) -> float:
     """Recursive constant term extraction."""
-    from optyx.core.vectors import DotProduct, LinearCombination, VectorSum
+    from optyx.core.vectors import (
+        DotProduct,
+        LinearCombination,
+        VectorPowerSum,
+        VectorSum,
+    )
 
     if isinstance(expr, Constant):
         return float(expr.value)
 
     if isinstance(expr, Variable):
         return 0.0
+
+    # (x ** 0).sum() is the constant n; (x ** 1).sum() has no constant term
+    if isinstance(expr, VectorPowerSum):
+        return float(len(expr.vector._variables)) if expr.power == 0.0 else 0.0
 
     # Vector expressions over plain variables have no constant term; the
     # elements of a vector *expression* (c @ (x + 1)) may carry constants
@@ -898,12 +920,22 @@ def _extract_all_coefficients_impl(
     from optyx.core.vectors import (
         DotProduct,
         LinearCombination,
+        VectorPowerSum,
         VectorSum,
         VectorVariable,
     )
 
     # Constant - no variable coefficients
     if isinstance(expr, Constant):
+        return
+
+    # (x ** 1).sum() is sum(x); (x ** 0).sum() is a constant
+    if isinstance(expr, VectorPowerSum):
+        if expr.power == 1.0:
+            for var in expr.vector._variables:
+                idx = var_index.get(var.name)
+                if idx is not None:
+                    result[idx] += multiplier
         return
 
     # Variable - add coefficient at this variable's index
